@@ -1005,6 +1005,11 @@ func (r *proxyStreamReceiver) sendAck(
 				lastSentMin := r.lastSentMin
 				lastExclusiveHighOriginal := r.lastExclusiveHighOriginal
 				r.ackMu.Unlock()
+				// Nothing has been received from the source on this stream yet (e.g. right after a reconnect):
+				// its high watermark is unknown, so there is nothing an ACK could be clamped to.
+				if lastExclusiveHighOriginal == 0 {
+					continue
+				}
 				if !first && min >= lastSentMin {
 					// Clamp ACK to last known exclusive high watermark from source
 					if lastExclusiveHighOriginal > 0 && min > lastExclusiveHighOriginal {
